@@ -812,7 +812,6 @@ func (t *trzszTransfer) sendFileDataV2(file fileReader, progress progressCallbac
 	c, cancel := context.WithCancelCause(context.Background())
 	ctx := &pipelineContext{c, cancel, make(chan struct{}, 1)}
 	defer ctx.cancel(nil)
-	defer close(ctx.succ)
 
 	fileDataChan, md5SourceChan := t.pipelineReadData(ctx, file)
 
@@ -1074,7 +1073,6 @@ func (t *trzszTransfer) recvFileDataV2(file fileWriter, size int64, progress pro
 	c, cancel := context.WithCancelCause(context.Background())
 	ctx := &pipelineContext{c, cancel, make(chan struct{}, 1)}
 	defer ctx.cancel(nil)
-	defer close(ctx.succ)
 
 	ackChan, recvDataChan := t.pipelineRecvData(ctx)
 
